@@ -8,8 +8,8 @@ from . import build
 _cache = {}
 
 
-def get(names, repo=None, srcdir=None, unit="queue"):
-    key = (tuple(sorted(names)), repo, srcdir)
+def get(names, repo=None, srcdir=None, unit="queue", includes=()):
+    key = (tuple(sorted(names)), repo, srcdir, tuple(includes))
     if key in _cache:
         return _cache[key]
     src, flags, cwd = build.ast_flags(unit, repo, srcdir)
@@ -17,6 +17,8 @@ def get(names, repo=None, srcdir=None, unit="queue"):
     cfile = os.path.join(sd, "verif_consts_%d.c" % len(_cache))
     with open(cfile, "w") as f:
         f.write('#include "internal.h"\n')
+        for inc in includes:
+            f.write('#include <%s>\n' % inc)
         for n in sorted(names):
             f.write("const unsigned long long verif_%s = (unsigned long long)(%s);\n" % (n, n))
     bc = cfile[:-2] + ".ll"
